@@ -79,3 +79,37 @@ Example C18_nonvacuous :
      /\ length recs = 2%nat.
 Proof. vm_compute. split; [reflexivity|]. repeat eexists. Qed.
 Print Assumptions C18_nonvacuous.
+
+(* ------------------------------------------------------------------ whole tables, across the ports *)
+From RBQL Require Import TableLines_Proofs Table_Proofs TableCross_Proofs.
+
+(* "a table written by either is read back identically by the other": for every table the dialect can represent, written by
+   EITHER port (the written lines are the same, last conjunct) with any line separator, BOTH stream readers - the Python
+   reader on any read size / short reads, the JavaScript reader on any chunks and any schedule - return the same clean result:
+   the table itself (CR / CRLF inside quoted_rfc fields as LF), no BOM / defective-line warning, no error *)
+Theorem C18_table_cross_roundtrip : forall (writer : lang) (pol : policy) (dlm ls : str) (c : cfg) (rows : list (list str))
+    (cs : nat) (pieces : list str) (b0 : bool) (chunks : list (str * bool)),
+  c_rfc c = is_rfc pol -> line_sep ls -> good_dlm pol dlm = true -> dlm_nl_free pol dlm = true ->
+  table_ok pol dlm (enc_code (c_enc c)) rows = true ->
+  no_comment_rows c (written writer pol dlm rows) = true -> comment_ok c ->
+  (1 <= cs)%nat -> Forall (fun p => p <> []) pieces -> concat pieces = emit ls (written writer pol dlm rows) ->
+  js_chunks_ok false false (map fst chunks) -> concat (map fst chunks) = emit ls (written writer pol dlm rows) ->
+  let expected := ok_result c (map (map nl_norm) rows) (physical_lines (written writer pol dlm rows)) in
+  run_py (smart_split pol dlm false) c cs pieces = expected /\
+  run_js_decoded (smart_split pol dlm false) c b0 chunks = jresult_of_result expected /\
+  written LJs pol dlm rows = written LPy pol dlm rows.
+Proof. exact table_cross_roundtrip. Qed.
+Print Assumptions C18_table_cross_roundtrip.
+
+(* the JavaScript side reading the UTF-8 BYTES of the written text, any partition into non-empty chunks *)
+Theorem C18_table_cross_roundtrip_bytes : forall (writer : lang) (pol : policy) (dlm ls : str) (c : cfg) (rows : list (list str)),
+  c_rfc c = is_rfc pol -> line_sep ls -> good_dlm pol dlm = true -> dlm_nl_free pol dlm = true ->
+  table_ok pol dlm (enc_code (c_enc c)) rows = true ->
+  no_comment_rows c (written writer pol dlm rows) = true ->
+  forall (b0 : bool) (chunks : list (bytes * bool)),
+  comment_ok c -> c_enc c = EncUtf8 -> Forall (fun x => x <> []) (map fst chunks) ->
+  decode_whole (concat (map fst chunks)) = Some (emit ls (written writer pol dlm rows)) ->
+  run_js_stream (smart_split pol dlm false) c b0 chunks =
+  jresult_of_result (ok_result c (map (map nl_norm) rows) (physical_lines (written writer pol dlm rows))).
+Proof. exact cross_js_bytes. Qed.
+Print Assumptions C18_table_cross_roundtrip_bytes.
